@@ -54,6 +54,10 @@ func (o *optimizer) optimizeAllFiles(printer FilePrinter) {
 		// 2. write file
 		log.Printf("write file: %s\n", f.Filename)
 		printer(f.Filename, f)
+
+		// a file shared by a package and its test variant is visited twice, on the same
+		// syntax tree: cleaning its imports a second time drops the blank ones
+		delete(usesSeq, f.Filename)
 	})
 }
 
